@@ -196,6 +196,15 @@ def r2_subparsers(ctx):
         if isinstance(c.func, ast.Attribute) and c.func.attr == 'set_defaults' and isinstance(c.func.value, ast.Name):
             if any(k.arg is None and isinstance(k.value, ast.Name) and k.value.id == 'defaults' for k in c.keywords):  # `defaults` is a parameter name (public interface of make_main_parser)
                 with_defaults.add(c.func.value.id)
+    # ... or one loop over every registered sub-parser (`for p in subparsers.choices.values(): p.set_defaults(**defaults)`)
+    # placed after the last add_parser call
+    actions = {dotted(call.func.value) for call in created.values()}
+    last_add = max((call.lineno for call in created.values()), default=0)
+    for lp in [l for l in mk.node.body if isinstance(l, ast.For) and isinstance(l.target, ast.Name)]:
+        over_all = any(isinstance(x, ast.Attribute) and x.attr == 'choices' and dotted(x.value) in actions for x in ast.walk(lp.iter))
+        sets = any(isinstance(c.func, ast.Attribute) and c.func.attr == 'set_defaults' and isinstance(c.func.value, ast.Name) and c.func.value.id == lp.target.id and any(k.arg is None and isinstance(k.value, ast.Name) and k.value.id == 'defaults' for k in c.keywords) for st in lp.body for c in calls_in(st) if st in lp.body and not isinstance(st, (ast.If, ast.Try)))
+        if over_all and sets and lp.lineno > last_add:
+            with_defaults |= set(created)
     for name, call in created.items():
         par = kwarg(call, 'parents')
         ctx.check(
